@@ -128,6 +128,13 @@ MUTANTS = {
     "rewriter_args_reversed": ("recode.py", "            + [\n                ast.Name(id=f\"{tmp}{i}\", ctx=ast.Load())\n                for i, arg in enumerate(node.args)\n            ],", "            + [\n                ast.Name(id=f\"{tmp}{i}\", ctx=ast.Load())\n                for i, arg in reversed(list(enumerate(node.args)))\n            ],", ["C09"]),
     "rewriter_tmp_shared": ("recode.py", '        tmp = f"__TMP{next(self.count)}_"', '        tmp = "__TMP_"', ["C09"]),
     "closure_wrong_cell": ("recode.py", "            fn.__closure__[fn.__code__.co_freevars.index(name)]", "            fn.__closure__[0]", ["C09"]),
+    # ---- C18
+    "compile_no_reset": ("core.py", "            self._compiled = False\n            dispatch = getattr(self, \"dispatch\", None)\n            if dispatch is not None:\n                dispatch.__code__ = dispatch.__bootstrap_code__\n                dispatch.__defaults__ = None\n                dispatch.__kwdefaults__ = None\n            raise",
+                         "            raise", ["C18"]),
+    "compile_reset_only_exception": ("core.py", "        try:\n            self._compile()\n        except BaseException:", "        try:\n            self._compile()\n        except Exception:", ["C18"]),
+    "compiled_flag_early": ("core.py", "        self.analyze_arguments()\n        dispatch = generate_dispatch(self, self.argument_analysis)", "        self._compiled = True\n        self.analyze_arguments()\n        dispatch = generate_dispatch(self, self.argument_analysis)", ["C18"]),
+    "compile_reset_keeps_compiled": ("core.py", "            self._compiled = False\n            dispatch = getattr", "            dispatch = getattr", ["C18"]),
+    "publish_primary_first": ("typemap.py", "        for tup, func in reversed(entries):\n            self[tup] = func", "        for tup, func in entries:\n            self[tup] = func", ["C18", "C19"]),
     # ---- C17
     "ext_first_base_only": ("core.py", "                for other in others:\n                    prev.add_mixins(other)\n", "", ["C17"]),
     "ext_no_copy": ("core.py", "                prev = prev.copy()\n                for other in others:", "                for other in others:", ["C17"]),
